@@ -1027,6 +1027,9 @@ func limitCollection() ElementHook {
 		if err != nil {
 			return nil, fmt.Errorf("failed to retrieve the int64 value for literal %v with error %v", l, err)
 		}
+		if lv < 0 {
+			return nil, fmt.Errorf("limit cannot be negative; found %s instead", l)
+		}
 		st.limitSet, st.limit = true, lv
 		return hook, nil
 	}
